@@ -705,7 +705,6 @@ impl Locomotive {
         force_max: si::Force,
         side_effect: ForceMaxSideEffect,
     ) -> anyhow::Result<()> {
-        self.force_max = force_max;
         match side_effect {
             ForceMaxSideEffect::Mass => self
                 .set_mass(
@@ -732,6 +731,7 @@ impl Locomotive {
                 self.mass = None;
             }
         }
+        self.force_max = force_max;
         Ok(())
     }
 
